@@ -53,6 +53,21 @@ def applyCutoff (sensortype datatype : Int) (cutoff x : K) : K :=
     else x
   else x
 
+/-! ## limit sensors (JOINTLIMITPOS/VEL/FRC = 20/21/22, TENDONLIMITPOS/VEL/FRC = 23/24/25) -/
+
+/-- engine_sensor.c: a limit sensor of type `stype` on object `objid` reports the limit row `(rowKind, rowId)` iff the ids
+    agree AND the row kind matches the sensor kind (mjCNSTR_LIMIT_JOINT = 3 for the joint sensor, mjCNSTR_LIMIT_TENDON = 4
+    for the tendon sensor) — joint ids and tendon ids overlap, so the kind test is essential -/
+def limitRowFeeds (jointSensor tendonSensor : Int) (rowKind rowId stype objid : Int) : Prop :=
+  rowId = objid ∧ ((rowKind = 3 ∧ stype = jointSensor) ∨ (rowKind = 4 ∧ stype = tendonSensor))
+
+instance (a b c d e f : Int) : Decidable (limitRowFeeds a b c d e f) := by unfold limitRowFeeds; infer_instance
+
+/-- row `row` of world `w` lies in the limit block `[ne+nf, ne+nf+nl)` of the constraint rows -/
+def isLimitRow (ne nf nl row : Int) : Prop := ne + nf ≤ row ∧ row < ne + nf + nl
+
+instance (a b c d : Int) : Decidable (isLimitRow a b c d) := by unfold isLimitRow; infer_instance
+
 /-! ## frames: `get_xpos_xmat`, `get_xquat`, body of an object -/
 
 /-- world position of the frame `(objtype, objid)` (`get_xpos_xmat`; BODY = inertial frame, XBODY = body frame) -/
